@@ -12,9 +12,10 @@ open UvModel.HandleKernels
 /-- the part of the state the accounting invariants talk about -/
 def sig (s : State) : Core × Nat := (s.c, s.nextId)
 
-structure SInv (s : State) : Prop where
-  core : s.c.Inv
-  ids : ∀ e ∈ s.c.fl, e.1 < s.nextId
+/-- the accounting invariant (a `def`, so that updates of other state fields are transparent) -/
+def SInv (s : State) : Prop := s.c.Inv ∧ ∀ e ∈ s.c.fl, e.1 < s.nextId
+theorem SInv.core {s : State} (h : SInv s) : s.c.Inv := h.1
+theorem SInv.ids {s : State} (h : SInv s) : ∀ e ∈ s.c.fl, e.1 < s.nextId := h.2
 
 theorem SInv.of_sig {s s' : State} (h : sig s' = sig s) (hi : SInv s) : SInv s' := by
   simp only [sig, Prod.mk.injEq] at h
@@ -423,7 +424,7 @@ theorem lookF_append_fresh {fl : List (Nat × HFlags)} {id : Nat} {f : HFlags} (
     exact ih (fun e' he' => h e' (List.mem_cons_of_mem _ he'))
 
 theorem addHandle_inv (s : State) (k : Kind) (hi : SInv s) : SInv (addHandle s k) := by
-  constructor
+  refine ⟨?_, ?_⟩
   · exact add_inv hi.core
   · intro e he
     simp only [addHandle, Core.add, List.mem_append, List.mem_singleton] at he ⊢
@@ -460,5 +461,223 @@ theorem initH_inv (s : State) (k : Kind) (hi : SInv s) : SInv (initH s k) := by
   | pipe => exact ha
   | signal => exact ha
   | fsEvent => exact ha
+
+/-! ### one API call -/
+theorem getHF_getF {s : State} {id : Nat} {h : Handle} {f : HFlags} (hg : getHF s id = some (h, f)) :
+    getF s id = some f := by
+  unfold getHF at hg
+  split at hg
+  · rename_i h1 h2
+    simp only [Option.some.injEq, Prod.mk.injEq] at hg
+    rw [h2, hg.2]
+  · simp at hg
+
+theorem pre_of_getHF {s : State} {id : Nat} {h : Handle} {f : HFlags} (hg : getHF s id = some (h, f))
+    (hc : hClosing f = false) : ∀ f', getF s id = some f' → f'.closing = false := by
+  intro f' hf'
+  rw [getHF_getF hg] at hf'
+  cases hf'
+  simp [hClosing, isClosing, toHK] at hc
+  exact hc.1
+
+theorem illegal_inv {s : State} (hi : SInv s) : SInv (illegal s).1 := SInv.of_sig (s := s) rfl hi
+
+theorem applyOp_inv (s : State) (o : Op) (hi : SInv s) : SInv (applyOp s o).1 := by
+  unfold applyOp
+  split
+  · exact illegal_inv hi
+  · cases o with
+    | init k => exact initH_inv s k hi
+    | start id a b =>
+      simp only
+      split
+      · exact illegal_inv hi
+      · rename_i h f hg
+        split
+        · exact illegal_inv hi
+        · split
+          · exact (timerStart_steps s id a b).inv hi
+          · split
+            · exact illegal_inv hi
+            · rename_i hc
+              have hc' : hClosing f = false := by
+                cases h' : hClosing f <;> simp_all
+              exact (pollStart_steps s id a (pre_of_getHF hg hc')).inv hi
+          · split
+            · exact illegal_inv hi
+            · rename_i hc
+              exact (watcherStart_steps s .idle id (pre_of_getHF hg (by simpa using hc))).inv hi
+          · split
+            · exact illegal_inv hi
+            · rename_i hc
+              exact (watcherStart_steps s .prepare id (pre_of_getHF hg (by simpa using hc))).inv hi
+          · split
+            · exact illegal_inv hi
+            · rename_i hc
+              exact (watcherStart_steps s .check id (pre_of_getHF hg (by simpa using hc))).inv hi
+          · split
+            · exact illegal_inv hi
+            · rename_i hc
+              exact (hStart_steps s id (pre_of_getHF hg (by simpa using hc))).inv hi
+          · split
+            · exact illegal_inv hi
+            · rename_i hc
+              split
+              · exact hi
+              · exact (Steps.sig_left (a' := initInotify s) (by simp)
+                  (hStart_steps _ _ (pre_of_sig (s := s) (by simp) (pre_of_getHF hg (by simpa using hc))))).inv hi
+          · split
+            · exact illegal_inv hi
+            · rename_i hc
+              exact (udpRecvStart_steps s id (pre_of_getHF hg (by simpa using hc))).inv hi
+          · split
+            · exact illegal_inv hi
+            · rename_i hc
+              exact (streamListen_steps s id (pre_of_getHF hg (by simpa using hc))).inv hi
+          · split
+            · exact illegal_inv hi
+            · rename_i hc
+              exact (streamListen_steps s id (pre_of_getHF hg (by simpa using hc))).inv hi
+          · exact illegal_inv hi
+    | stop id =>
+      simp only
+      split
+      · exact illegal_inv hi
+      · split
+        · exact illegal_inv hi
+        · split
+          · exact (timerStop_steps s id).inv hi
+          · exact (watcherStop_steps s .idle id).inv hi
+          · exact (watcherStop_steps s .prepare id).inv hi
+          · exact (watcherStop_steps s .check id).inv hi
+          · exact (pollStop_steps s id).inv hi
+          · exact (hStop_steps s id).inv hi
+          · exact (fsEventStop_steps s id).inv hi
+          · exact (udpRecvStop_steps s id).inv hi
+          · exact illegal_inv hi
+    | again id =>
+      simp only
+      split
+      · split
+        · exact (timerAgain_steps s id).inv hi
+        · exact illegal_inv hi
+      · exact illegal_inv hi
+    | setRepeat id v =>
+      simp only
+      split
+      · split
+        · exact SInv.of_sig (s := s) rfl hi
+        · exact illegal_inv hi
+      · exact illegal_inv hi
+    | ref id =>
+      simp only
+      split
+      · split
+        · exact illegal_inv hi
+        · exact Steps.inv ⟨CStep.ref _ _, rfl⟩ hi
+      · exact illegal_inv hi
+    | unref id =>
+      simp only
+      split
+      · split
+        · exact illegal_inv hi
+        · exact Steps.inv ⟨CStep.unref _ _, rfl⟩ hi
+      · exact illegal_inv hi
+    | close id =>
+      simp only
+      split
+      · rename_i h f hg
+        split
+        · exact illegal_inv hi
+        · rename_i hc
+          have hc' : hClosing f = false := by
+            cases h' : hClosing f <;> simp_all
+          exact (closeH_steps s h.kind id (pre_of_getHF hg hc')).inv hi
+      · exact illegal_inv hi
+    | asyncSend id =>
+      simp only
+      split
+      · split
+        · exact SInv.of_sig (s := s) (by simp [ok]) hi
+        · exact illegal_inv hi
+      · exact illegal_inv hi
+    | bind id =>
+      simp only
+      split
+      · split
+        · exact SInv.of_sig (s := s) rfl hi
+        · exact illegal_inv hi
+      · exact illegal_inv hi
+    | udpSend id =>
+      simp only
+      split
+      · rename_i h f hg
+        split
+        · rename_i hc
+          have hc' : hClosing f = false := by
+            cases h' : hClosing f <;> simp_all
+          exact (udpSend_steps s id (pre_of_getHF hg hc')).inv hi
+        · exact illegal_inv hi
+      · exact illegal_inv hi
+    | work => exact SInv.of_sig (s := s) (by simp [ok]) hi
+    | workNull => exact hi
+    | udpSendBad id =>
+      simp only
+      split
+      · split
+        · exact hi
+        · exact illegal_inv hi
+      · exact illegal_inv hi
+    | cancel r =>
+      simp only
+      split
+      · exact SInv.of_sig (s := s) (by simp [ok]) hi
+      · exact illegal_inv hi
+    | stopLoop => exact SInv.of_sig (s := s) rfl hi
+    | updateTime => exact SInv.of_sig (s := s) rfl hi
+    | advance n => exact SInv.of_sig (s := s) rfl hi
+    | getAlive => exact hi
+    | getBackendTimeout => exact hi
+    | getNow => exact hi
+    | isActive id =>
+      simp only
+      split
+      · split
+        · exact illegal_inv hi
+        · exact hi
+      · exact illegal_inv hi
+    | hasRef id =>
+      simp only
+      split
+      · split
+        · exact illegal_inv hi
+        · exact hi
+      · exact illegal_inv hi
+    | isClosing id =>
+      simp only
+      split
+      · split
+        · exact illegal_inv hi
+        · exact hi
+      · exact illegal_inv hi
+    | dueIn id =>
+      simp only
+      split
+      · split
+        · exact hi
+        · exact illegal_inv hi
+      · exact illegal_inv hi
+    | env n id =>
+      simp only
+      split
+      · split
+        · exact hi
+        · exact illegal_inv hi
+      · exact illegal_inv hi
+    | bad t => exact illegal_inv hi
+
+theorem stepOp_inv (s : State) (o : Op) (hi : SInv s) : SInv (stepOp s o) := by
+  unfold stepOp
+  exact SInv.of_sig (s := (applyOp s o).1) (by simp) (applyOp_inv s o hi)
 
 end UvModel.Loop
